@@ -96,6 +96,7 @@ func runSmall(c *core.Ctx) []core.Obligation {
 	smallDecoderReaderErrors(c, b)
 	smallWave19(c, b)
 	smallWave19b(c, b)
+	smallOverflowConsumesNumber(c, b)
 	smallStringOptionNull(c, b)
 	smallStringOptionMarshaler(c, b)
 	return b.out
@@ -4966,6 +4967,92 @@ func smallWave19b(c *core.Ctx, b *ob) {
 			default:
 				b.addP(props, core.Discharged, key, c.FuncPos(fn), fmt.Sprintf("%d drop(s) of wantzero, each after an emission", n))
 			}
+		}
+	}
+}
+
+// S83 — an integer that does not fit its target is a complete value: the error is about its
+// range, and what follows it is the remainder. The 8/16/32-bit decoders return the bytes after
+// the number (the range test comes after parseInt); parseInt and parseUint themselves, for numbers
+// beyond 64 bits, must not hand back their whole input: Parse would return the number itself as
+// "unconsumed", and the error would quote what follows the number.
+func smallOverflowConsumesNumber(c *core.Ctx, b *ob) {
+	props := []string{"C11", "C02"}
+	makesOverflow := func(v ssa.Value) bool {
+		return dependsOn(v, func(x ssa.Value) bool {
+			call, ok := x.(*ssa.Call)
+			return ok && strings.HasSuffix(calleeName(call.Common()), "json.unmarshalOverflow")
+		})
+	}
+	// examine one function: its overflow returns must not hand back its own input
+	examine := func(fn *ssa.Function) (n int, bad string) {
+		var in *ssa.Parameter
+		for _, p := range fn.Params {
+			if p.Type().String() == "[]byte" && in == nil {
+				in = p
+			}
+		}
+		if in == nil {
+			return 0, ""
+		}
+		for _, r := range returnsOf(fn) {
+			if len(r.Results) != 3 {
+				continue
+			}
+			isOverflow := false
+			for _, o := range origins(r.Results[2]) {
+				if makesOverflow(o) {
+					isOverflow = true
+				}
+			}
+			if !isOverflow {
+				continue
+			}
+			n++
+			for _, o := range origins(r.Results[1]) {
+				if o == ssa.Value(in) {
+					bad = c.InstrPos(r)
+				}
+			}
+		}
+		return n, bad
+	}
+	for _, name := range []string{"json.(decoder).parseInt", "json.(decoder).parseUint"} {
+		key := "overflow:remainder-after-the-number:" + name
+		fn := c.Lookup(name)
+		if fn == nil {
+			b.addP(props, core.Undecided, key, "-", name+" not found")
+			continue
+		}
+		n, bad := examine(fn)
+		// overflow reported through a helper
+		for _, ci := range callsIn(fn) {
+			h := staticCallee(ci.Common())
+			if h == nil || !c.InRepo(h) || h.Blocks == nil || h == fn {
+				continue
+			}
+			direct := false
+			for _, c2 := range callsIn(h) {
+				if strings.HasSuffix(calleeName(c2.Common()), "json.unmarshalOverflow") {
+					direct = true
+				}
+			}
+			if !direct {
+				continue
+			}
+			hn, hbad := examine(h)
+			n += hn
+			if hbad != "" {
+				bad = hbad
+			}
+		}
+		switch {
+		case n == 0:
+			b.addP(props, core.Undecided, key, c.FuncPos(fn), "no overflow return found")
+		case bad != "":
+			b.addP(props, core.Violation, key, bad, name+" returns its whole input as the remainder when the number overflows 64 bits: Parse(\"99999999999999999999 \\\"next\\\"\", &int64) hands back the number itself as unconsumed (for 300 into an int8 the remainder starts after the number), and the error text quotes the bytes that follow the number")
+		default:
+			b.addP(props, core.Discharged, key, c.FuncPos(fn), fmt.Sprintf("%d overflow return(s), each hands back what follows the number", n))
 		}
 	}
 }
